@@ -49,6 +49,23 @@ partial def parseEntries (s : List Char) (acc : List (Name × Node)) : Option (L
         | _, _ => none
       | _ => none
     | _ => none
+  -- `G<name>:<length>x<byte>;` — a file of `length` copies of one byte (large files)
+  | 'G' :: rest =>
+    let nm := rest.takeWhile isHexChar
+    match rest.dropWhile isHexChar with
+    | ':' :: r =>
+      let ds := r.takeWhile Char.isDigit
+      match r.dropWhile Char.isDigit with
+      | 'x' :: r1 =>
+        let bt := r1.takeWhile isHexChar
+        match r1.dropWhile isHexChar with
+        | ';' :: r' =>
+          match unhexAux nm [], unhexAux bt [], (String.ofList ds).toNat? with
+          | some n, some [b], some len => parseEntries r' ((n, .file (List.replicate len b)) :: acc)
+          | _, _, _ => none
+        | _ => none
+      | _ => none
+    | _ => none
   | 'D' :: rest =>
     let nm := rest.takeWhile isHexChar
     match rest.dropWhile isHexChar with
